@@ -21,7 +21,7 @@ void eng_default_profile(void)
 {
         memset(&EP, 0, sizeof EP);
         EP.max_cmds = 16; EP.p_event_step = 20; EP.p_handler_trigger = 20; EP.p_hold = 10; EP.p_list = 7; EP.p_weird = 13;
-        EP.p_varcb_fail = 3; EP.p_backpressure = 50; EP.p_desc = 25; EP.p_garbage_line = 6; EP.p_long_line = 8; EP.max_lines = 8; EP.p_cut = 15;
+        EP.p_varcb_fail = 3; EP.p_backpressure = 50; EP.p_desc = 25; EP.p_garbage_line = 6; EP.p_long_line = 8; EP.max_lines = 8; EP.p_cut = 15; EP.p_lookup = 4;
 }
 
 /* ------------------------------------------------------------ model hooks */
@@ -297,7 +297,7 @@ void eng_gen_table(void)
                                 if (chance(50)) { char nb[8]; snprintf(nb, sizeof nb, "N%u", k); v[k].name = xstr(nb); }
                                 size_t sz;
                                 if (v[k].type <= CAT_VAR_NUM_HEX) { static const size_t szs[] = { 1, 2, 4, 4, 2, 1, 3, 8 }; sz = szs[rn(chance(90) ? 6 : 8)]; }
-                                else sz = chance(90) ? 1 + rn(8) : 1 + rn(64);
+                                else sz = chance(85) ? 1 + rn(8) : chance(50) ? 17 + rn(48) : 1 + rn(64);
                                 uint8_t *d = w_vdata(&v[k], sz);
                                 for (size_t b = 0; b < sz; b++) d[b] = (uint8_t)rnd();
                                 if (v[k].type == CAT_VAR_BUF_STRING) {
@@ -404,6 +404,13 @@ void eng_run_history(void)
                 if (HOLD_PHASE == 1 && chance(3)) eng_hold_exit(chance(50) ? CAT_STATUS_OK : CAT_STATUS_ERROR);
                 else if (HOLD_PHASE == 2 && chance(20)) eng_hold_exit(chance(50) ? CAT_STATUS_OK : CAT_STATUS_ERROR);   /* repeated / conflicting request before it is consumed */
                 if (chance(1)) eng_spurious_hold_exit();
+                if (rn(1000) < EP.p_lookup) {      /* the read-only lookup helpers of the public API may be called at any time: they must not disturb the parser */
+                        const char *nm = chance(70) ? W.cmd[rn(W.ncmds)]->name : "+NOSUCH";
+                        const struct cat_command *c1 = cat_search_command_by_name(W.at, nm);
+                        if (c1 && strcmp(c1->name, nm) != 0) viol("C03", "lookup-returned-wrong-command", "cat_search_command_by_name(\"%s\") returned \"%s\"", nm, c1->name);
+                        (void)cat_search_command_group_by_name(W.at, nm); (void)cat_search_variable_by_name(W.at, W.cmd[rn(W.ncmds)], "N0");
+                        CNT("lookup_api_calls_mid_history");
+                }
                 cat_status s = svc();
                 eng_after_service(s);
                 if (case_failed()) return;
